@@ -58,6 +58,13 @@ def generate(rng, tier):
             cases.append({"k": "ann", "regime": regime,
                           "a": distinct(rand_records(rng, regime, nseg=rng.choice([1, 3, 5]), span=12, tracks=tr, allow_empty=0.0)),
                           "b": distinct(rand_records(rng, regime, nseg=rng.choice([1, 2, 4]), span=12, tracks=tr, allow_empty=0.0))})
+    for regime in ("K0", "K4"):
+        for nbig in ([300, 640, 1100] if tier == "thorough" else [280 + 45 * len(regime)]):
+            u_ = 5 if regime == "K4" else 1
+            big = gen.big_timeline(rng, regime, nbig)
+            hi = max(x[1] for x in big)
+            sup = ["tl", [[a, a + rng.choice([3, 9, 40]) * u_] for a in sorted(rng.sample(range(0, hi, u_), 25))]]
+            cases.append({"regime": regime, "t": big, "other": gen.big_timeline(rng, regime, 60), "sup": sup})
     cases += gen.far_copies(rng, cases, ['t', 'other', 'sup', 'a', 'b'], (400 if tier == "thorough" else 60))
     return {"cases": cases, "meta": {"exhaustive": True, "small_scope_cases": nex,
                                      "sizes": gen.stats(cases, {"n_t": lambda c: len(c.get("t", c.get("a", []))),
